@@ -204,6 +204,8 @@ class DualQuaternion:
             # sandwich with the conjugate that also negates the dual unit: (r* - e d*)
             vp = left * DualQuaternion.Pure(v) * DualQuaternion(left.real.conj(), -1 * left.dual.conj())
             return vp.dual.v
+        else:
+            raise ValueError('DualQuaternion: operands to * are of different types')
 
     def matrix(self):
         """
